@@ -5,7 +5,7 @@ from seq_common import replay_seq
 
 PROPERTY = 'C12'
 GEN = ['Stamp', 'LogicCycle', 'LogicVerify']
-PROPS = ['SalsaVerif.Props.C12', 'SalsaVerif.Props.GenLogicCycle', 'SalsaVerif.Props.GenLogicVerify', 'SalsaVerif.Props.C12Rev']
+PROPS = ['SalsaVerif.Props.C12', 'SalsaVerif.Props.GenLogicCycle', 'SalsaVerif.Props.GenLogicVerify', 'SalsaVerif.Props.C12Rev', 'SalsaVerif.Props.GenLogicProvisional']
 KNOWN = ('fb-participant-after-revalidated-head', 'fix-participant-stale-after-revalidation')
 EXPLANATION = ('Theorems about the Lean model of salsa\'s fixpoint iteration scheme (DFS with an explicit stack, provisional values, cycle '
                'heads, outermost-head iteration, per-iteration cache; bodies are monotone expressions over 8-bit sets): for well-formed programs '
